@@ -857,13 +857,17 @@ def denoteMsgId (x : Str) : Except Err Nat :=
     | [c] => if isDigit c then .error .value else .ok c
     | _ => .error .value
 
+/-- "direction=incoming | outgoing": part of the message id for OUCH and SQF; ITCH messages only flow one way -/
+def denoteDir (impl : Impl) (d : Option Str) : Except Err (Option Str) :=
+  match impl, d with
+  | .itch, _ => .ok none
+  | _, some d => .ok (some d)
+  | _, none => .error .value
+
 def denoteMessage (impl : Impl) (s : Spec) (g : MessageEl) : Except Err MsgS := do
   let id ← denoteMsgId g.msgId
   let fs ← mapE (denoteField s) g.fields
-  let dir ← (match impl, g.direction with
-    | .itch, _ => pure none
-    | _, some d => pure (some d)
-    | _, none => throw .value : Except Err (Option Str))
+  let dir ← denoteDir impl g.direction
   pure ⟨g.name, id, dir, fs⟩
 
 /-- the schema a specification describes: one class per enum, record and message, in document order -/
